@@ -50,6 +50,19 @@ def structures(tier, seed):
             for extra in (("none", "before") if (tier == "thorough" or op == "diff") else ("none",)):
                 out.append({"sid": f"dispatch;op={op};component={kind};link={slot[0]}{'lr'[slot[1]]}:{lk[0]}{'-rev' if lk[1] else ''};extra={extra}", "part": "dispatch", "op": op, "kind": kind,
                             "slot": [slot[0], slot[1]], "lk": list(lk), "extra": extra})
+    NR = [("same", False), ("swap", False)]
+    for kind in ("X", "Y"):
+        for a in ("X", "Y"):
+            for lkL, lkR in itertools.product([None] + NR, repeat=2):
+                ent = {}
+                if lkL:
+                    ent[f"{a}0"] = list(lkL)
+                if lkR:
+                    ent[f"{a}1"] = list(lkR)
+                if not ent:
+                    continue
+                out.append({"sid": f"padvec;component={kind};axis={a};left={lkL};right={lkR}", "part": "padvec", "kind": kind, "entry": ent, "bw": [a]})
+    out.append({"sid": "padvec;component=X;four-slots", "part": "padvec", "kind": "X", "entry": {"X0": ["swap", False], "X1": ["same", False], "Y0": ["same", False], "Y1": ["swap", False]}, "bw": ["X", "Y"], "extra": "before"})
     for op in ("diff", "interp", "min", "max"):
         for (pf, pt) in C01.SHIFTS:
             for rule in (("fill", "extend", "periodic") if tier == "thorough" else ("extend",)):
@@ -363,11 +376,23 @@ def run_2dvector(s):
     return {"sid": s["sid"], "obligations": obs, "paths": rep.paths, "queries": rep.queries, "solver_time": rep.solver_time, "engine_errors": rep.engine_errors, "covers": covers}
 
 
+def run_padvec(s):
+    """the C05 contract of the real padding code for vector inputs, re-proved here for the link shapes of the statement's
+    family (non-reversed links, one or both sides of an axis linked, same-axis and axis-swapping mixed)"""
+    s5 = C05.mk(s["kind"], {(k[0], int(k[1])): tuple(v) for k, v in s["entry"].items()}, tuple(s["bw"]), {"X": "fill", "Y": "extend"}, s.get("extra", "none"))
+    r = C05.run_structure(s5)
+    r["sid"] = s["sid"]
+    for o in r["obligations"]:
+        o["fn"] = "padding._pad_face_connections[vector]"
+    r["covers"] = {"padvec": 1}
+    return r
+
+
 def run_structure(s):
-    return {"lemma": run_lemma, "dispatch": run_dispatch, "simple": run_simple, "native": run_native, "2d": run_2dvector}[s["part"]](s)
+    return {"lemma": run_lemma, "dispatch": run_dispatch, "simple": run_simple, "native": run_native, "2d": run_2dvector, "padvec": run_padvec}[s["part"]](s)
 
 
-REQUIRED_COVERS = ["lemma", "returned"]
+REQUIRED_COVERS = ["lemma", "returned", "padvec"]
 
 
 def replay(ob):
@@ -379,6 +404,9 @@ def replay(ob):
 
     warnings.simplefilter("ignore")
     wit = ob.get("witness") or {}
+    if "structure" in wit and "part" not in wit:
+        from harness import native_pad
+        return native_pad.replay_face(ob)
     if wit.get("part") == "simple":
         s = wit["s"]
         pos = {"center": "x_c", "left": "x_l", "right": "x_r", "outer": "x_o", "inner": "x_i"}
